@@ -16,6 +16,7 @@ import (
 	"path/filepath"
 	"regexp"
 	"runtime"
+	"runtime/pprof"
 	"sort"
 	"strings"
 	"sync"
@@ -76,6 +77,11 @@ type worker struct {
 	yield  chan int
 	trace  []string
 	early  int
+	// the state on disk, reused while only access times, marks and water marks change
+	stKey    string
+	stPS     []placed
+	stStrays map[string]string
+	stAll    map[string]bool
 }
 
 var workers []*worker
@@ -181,59 +187,114 @@ type placed struct {
 	before string
 }
 
-// build creates the generated state and returns the cache under test (with its marks) and the entries.
+var payloads = map[[2]int][]byte{}
+var payMu sync.Mutex
+
+func payload(i, kib int) []byte {
+	payMu.Lock()
+	defer payMu.Unlock()
+	k := [2]int{i, kib}
+	if payloads[k] == nil {
+		payloads[k] = []byte(strings.Repeat(string(rune('a'+i)), kib*1024))
+	}
+	return payloads[k]
+}
+
+// look is a cheap fingerprint of an entry or stray: "" if absent, else its kind, child names and sizes.
+func look(p string) string {
+	fi, err := os.Lstat(p)
+	if err != nil {
+		return ""
+	}
+	if !fi.IsDir() {
+		return fmt.Sprintf("f%d", fi.Size())
+	}
+	es, _ := os.ReadDir(p)
+	out := "d"
+	for _, e := range es {
+		out += " " + e.Name() + ":" + look(filepath.Join(p, e.Name()))
+	}
+	return out
+}
+
+func (w *worker) place(c Case, i int, final string) {
+	if c.Compress {
+		must(os.MkdirAll(filepath.Dir(final), 0o755))
+		must(os.WriteFile(final, payload(i, c.Entries[i].KiB), 0o644))
+	} else {
+		must(os.MkdirAll(final, 0o755))
+		must(os.WriteFile(filepath.Join(final, "out"), payload(i, c.Entries[i].KiB), 0o644))
+	}
+}
+
+// build creates the generated state (or repairs the previous one when only access times, marks and water marks differ)
+// and returns the cache under test (with its marks), the entries and the stray files.
 func (w *worker) build(c Case) (*cache.VerifDirCacheC12, []placed, map[string]string) {
-	must(os.RemoveAll(w.cacheRoot))
-	dc := w.newCache(c.Compress)
-	ps := make([]placed, len(c.Entries))
-	for i, e := range c.Entries {
-		final, _ := cache.VerifPathC14(dc, w.targetOf(i), keys[i])
-		payload := []byte(strings.Repeat(string(rune('a'+i)), e.KiB*1024))
-		if c.Compress {
-			must(os.MkdirAll(filepath.Dir(final), 0o755))
-			must(os.WriteFile(final, payload, 0o644))
-		} else {
-			must(os.MkdirAll(final, 0o755))
-			must(os.WriteFile(filepath.Join(final, "out"), payload, 0o644))
-		}
-		ps[i] = placed{path: final}
+	key := fmt.Sprint(c.Compress, c.Strays)
+	for _, e := range c.Entries {
+		key += fmt.Sprint(" ", e.KiB)
 	}
-	strays := map[string]string{}
-	if c.Strays {
-		sub := filepath.Join(w.cacheRoot, fmt.Sprintf("w%d", w.id), "ta")
-		must(os.MkdirAll(sub, 0o755))
-		k28 := "c3RyYXlzdHJheXN0cmF5c3RyYXk=" // looks like a key
-		list := []string{filepath.Join(w.cacheRoot, "README"), filepath.Join(sub, "notakey", "f"), filepath.Join(sub, "short=")}
-		if c.Compress {
-			list = append(list, filepath.Join(sub, k28+".tar.gz", "f"), filepath.Join(sub, k28), filepath.Join(sub, k28+".tar"))
-		} else {
-			list = append(list, filepath.Join(sub, k28), filepath.Join(sub, k28+".tar.gz"))
+	var dc *cache.VerifDirCacheC12
+	if key == w.stKey {
+		dc = w.newCache(c.Compress)
+		for i := range c.Entries {
+			if look(w.stPS[i].path) == "" {
+				w.place(c, i, w.stPS[i].path)
+			}
 		}
-		for _, s := range list {
-			must(os.MkdirAll(filepath.Dir(s), 0o755))
-			must(os.WriteFile(s, []byte(strings.Repeat("s", 3000)), 0o644))
-			strays[s] = ""
+	} else {
+		w.stKey = ""
+		must(os.RemoveAll(w.cacheRoot))
+		dc = w.newCache(c.Compress)
+		ps := make([]placed, len(c.Entries))
+		for i := range c.Entries {
+			final, _ := cache.VerifPathC14(dc, w.targetOf(i), keys[i])
+			w.place(c, i, final)
+			ps[i] = placed{path: final}
 		}
+		strays := map[string]string{}
+		if c.Strays {
+			sub := filepath.Join(w.cacheRoot, fmt.Sprintf("w%d", w.id), "ta")
+			must(os.MkdirAll(sub, 0o755))
+			k28 := "c3RyYXlzdHJheXN0cmF5c3RyYXk=" // looks like a key
+			list := []string{filepath.Join(w.cacheRoot, "README"), filepath.Join(sub, "notakey", "f"), filepath.Join(sub, "short=")}
+			if c.Compress {
+				list = append(list, filepath.Join(sub, k28+".tar.gz", "f"), filepath.Join(sub, k28), filepath.Join(sub, k28+".tar"))
+			} else {
+				list = append(list, filepath.Join(sub, k28), filepath.Join(sub, k28+".tar.gz"))
+			}
+			for _, s := range list {
+				must(os.MkdirAll(filepath.Dir(s), 0o755))
+				must(os.WriteFile(s, []byte(strings.Repeat("s", 3000)), 0o644))
+			}
+			for _, s := range list {
+				strays[s] = look(s)
+			}
+		}
+		for i := range ps {
+			ps[i].size = sizeOf(ps[i].path)
+			ps[i].before = look(ps[i].path)
+		}
+		w.stPS, w.stStrays, w.stAll = ps, strays, map[string]bool{}
+		for _, p := range listAll(w.cacheRoot) {
+			w.stAll[p] = true
+		}
+		w.stKey = key
 	}
 	for i, e := range c.Entries {
-		ps[i].size = sizeOf(ps[i].path)
-		ps[i].before = snapshot(ps[i].path)
 		switch e.Mark {
 		case "S":
-			cache.VerifMarkC14(dc, ps[i].path, uint64(ps[i].size))
+			cache.VerifMarkC14(dc, w.stPS[i].path, uint64(w.stPS[i].size))
 		case "R":
-			cache.VerifMarkC14(dc, ps[i].path, 0)
+			cache.VerifMarkC14(dc, w.stPS[i].path, 0)
 		}
-	}
-	for s := range strays {
-		strays[s] = snapshot(s)
 	}
 	// access times last (creating children touches directories)
 	for i, e := range c.Entries {
 		at := baseTime.Add(time.Duration(e.Atime) * time.Minute)
-		must(os.Chtimes(ps[i].path, at, at))
+		must(os.Chtimes(w.stPS[i].path, at, at))
 	}
-	return dc, ps, strays
+	return dc, w.stPS, w.stStrays
 }
 
 // resolve turns the symbolic water marks into bytes using the measured sizes.
@@ -293,10 +354,12 @@ func listAll(dir string) []string {
 func (w *worker) runState(c Case) (class, detail string, after any) {
 	dc, ps, strays := w.build(c)
 	resolve(&c, ps)
-	allBefore := map[string]bool{}
-	for _, p := range listAll(w.cacheRoot) {
-		allBefore[p] = true
-	}
+	allBefore := w.stAll
+	defer func() {
+		if class != "" {
+			w.stKey = "" // rebuild from scratch after anything unexpected
+		}
+	}()
 	var view, unprotBefore int64
 	for i, e := range c.Entries {
 		if e.Mark != "R" {
@@ -312,7 +375,7 @@ func (w *worker) runState(c Case) (class, detail string, after any) {
 	var unprotAfter int64
 	unprotLeft := 0
 	for i, p := range ps {
-		now := snapshot(p.path)
+		now := look(p.path)
 		switch {
 		case now == p.before:
 			status[i] = "intact"
@@ -342,7 +405,7 @@ func (w *worker) runState(c Case) (class, detail string, after any) {
 		}
 	}
 	for s, before := range strays {
-		if snapshot(s) != before {
+		if look(s) != before {
 			return pfx + "non-entry-file-removed", desc + "; stray " + strings.TrimPrefix(s, w.cacheRoot), after
 		}
 	}
@@ -370,7 +433,9 @@ func sizes(ps []placed) []int64 {
 
 // runConc: thread 0 = clean(1, 0) (evict everything it may), thread 1 = X on the same dirCache.
 func (w *worker) runConc(c Case) (class, detail string, after any) {
+	w.stKey = ""
 	dc, ps, _ := w.build(c)
+	w.stKey = "" // the entries are modified below
 	// the outputs X stores / restores
 	must(os.RemoveAll(w.gen))
 	must(os.MkdirAll(w.gen, 0o755))
@@ -379,16 +444,19 @@ func (w *worker) runConc(c Case) (class, detail string, after any) {
 	must(os.MkdirAll(w.bin, 0o755))
 	xKey, xTarget := keys[4], w.tA
 	if c.X != "store-new" {
-		xKey = keys[0]
+		// X uses the NEWEST old entry (the last one the cleaner would evict)
+		xi := len(c.Entries) - 1
+		xKey, xTarget = keys[xi], w.targetOf(xi)
 		if c.Compress {
-			// a hand-made compressed entry is not a tarball: replace entry 0 by a real one, stored by "another process"
-			w.newCache(true).Store(w.tA, keys[0], []string{"out"})
+			// a hand-made compressed entry is not a tarball: replace it by a real one, stored by "another process"
+			w.newCache(true).Store(xTarget, xKey, []string{"out"})
 		} else {
-			must(os.WriteFile(filepath.Join(ps[0].path, "out"), []byte(strings.Repeat("n", 1500)), 0o644))
+			must(os.WriteFile(filepath.Join(ps[xi].path, "out"), []byte(strings.Repeat("n", 1500)), 0o644))
 		}
-		at := baseTime
-		must(os.Chtimes(ps[0].path, at, at))
+		at := baseTime.Add(time.Duration(c.Entries[xi].Atime) * time.Minute)
+		must(os.Chtimes(ps[xi].path, at, at))
 	}
+	w.tBin.Label = xTarget.Label
 	final, _ := cache.VerifPathC14(dc, xTarget, xKey)
 	w.mode, w.trace, w.early = mSched, nil, -1
 	w.yield = make(chan int)
@@ -435,6 +503,19 @@ func (w *worker) runConc(c Case) (class, detail string, after any) {
 	w.mode = mPass
 	pfx := "clean-vs-" + c.X + ":" + compName(c.Compress) + ":"
 	sched := strings.Join(w.trace, "\n")
+	// why an entry of this process got evicted, as far as the schedule tells
+	evicted := "clean:in-flight-store-evicted:" + compName(c.Compress)
+	if c.Pattern == "CXC" {
+		evicted = "clean:entry-marked-after-the-scan-evicted" // the cleaner acted on its list without looking at the marks again
+		for i, t := range w.trace {
+			if strings.HasPrefix(t, "x:") && i+1 < len(w.trace) && strings.HasPrefix(w.trace[i+1], "clean:") {
+				if strings.HasPrefix(w.trace[i+1], "clean:rename "+strings.ReplaceAll(final, root, "")+" ->") {
+					evicted = "clean:entry-marked-between-check-and-rename-evicted" // isMarked() then Rename() is not atomic
+				}
+				break
+			}
+		}
+	}
 	exists := core.PathExists(final)
 	after = map[string]any{"entry_exists": exists, "retrieve_hit": hit}
 	if c.X == "retrieve-existing" {
@@ -447,12 +528,12 @@ func (w *worker) runConc(c Case) (class, detail string, after any) {
 			return pfx + "hit-with-incomplete-outputs", fmt.Sprintf("pattern %s J=%d K=%d: Retrieve reported a hit but restored %s\n%s", c.Pattern, c.J, c.K, got.Canon(), sched), after
 		}
 		if !exists {
-			return pfx + "retrieved-entry-evicted", fmt.Sprintf("pattern %s J=%d K=%d: the entry this process retrieved (hit) was removed by the cleaner\n%s", c.Pattern, c.J, c.K, sched), after
+			return evicted, fmt.Sprintf("pattern %s J=%d K=%d: the entry this process retrieved (hit) was removed by the cleaner\n%s", c.Pattern, c.J, c.K, sched), after
 		}
 		return "", "", after
 	}
 	if !exists {
-		return pfx + "stored-entry-evicted", fmt.Sprintf("pattern %s J=%d K=%d: after Store and clean both finished the entry stored by this process does not exist\n%s", c.Pattern, c.J, c.K, sched), after
+		return evicted, fmt.Sprintf("pattern %s J=%d K=%d: after Store and clean both finished the entry stored by this process does not exist\n%s", c.Pattern, c.J, c.K, sched), after
 	}
 	must(os.RemoveAll(w.bin))
 	must(os.MkdirAll(w.bin, 0o755))
@@ -477,6 +558,11 @@ func main() {
 	lib.Quiet()
 	if r.Replay != "" {
 		r.Replay, _ = filepath.Abs(r.Replay)
+	}
+	if pf := os.Getenv("C14_PROF"); pf != "" {
+		f, _ := os.Create(pf)
+		pprof.StartCPUProfile(f)
+		go func() { time.Sleep(20 * time.Second); pprof.StopCPUProfile(); os.Exit(3) }()
 	}
 	base := os.Getenv("C14_TMP")
 	if st, e := os.Stat("/dev/shm"); base == "" && e == nil && st.IsDir() {
@@ -536,6 +622,9 @@ func main() {
 						if n == 4 && (k == 4 || m == "R") {
 							continue // 4 entries: payloads 1 and 2 KiB, marks unmarked / stored only
 						}
+						if r.Quick() && n == 3 && len(prefix) == 2 && (k != 1 || a == 5) {
+							continue // quick, 3 entries: the third is 1 KiB and not inside the grace period of the base time
+						}
 						rec(append(prefix, Entry{k, a, m}))
 					}
 				}
@@ -556,7 +645,7 @@ func main() {
 		count  int
 	}
 	found := map[string]*best{}
-	var evals, nontrivial, concRuns, transitions int64
+	var evals, nontrivial, concRuns, transitions, stateCases int64
 	var samples lib.Samples
 	record := func(j job, class, detail string, after any) {
 		n := atomic.AddInt64(&evals, 1)
@@ -581,6 +670,37 @@ func main() {
 			b.c, b.detail, b.idx = c, detail, j.idx
 		}
 		mu.Unlock()
+	}
+	// the cases of one entry list (both compressions), in order
+	casesOf := func(li int, es []Entry) []Case {
+		var out []Case
+		n := len(es)
+		// water marks: high in {1, total-1, total, total+1}; low = every subset sum and subset sum + 1
+		highs := []string{"total+0", "total+1", "one", "total-1"}
+		if r.Quick() {
+			highs = highs[:3]
+		}
+		for _, compress := range []bool{false, true} {
+			for _, strays := range []bool{false, true} {
+				if strays && li%5 != 0 {
+					continue // stray files with every 5th content
+				}
+				for _, hs := range highs {
+					for mask := 0; mask < 1<<n; mask++ {
+						for _, d := range []int{0, 1} {
+							if hs == "total+1" && (mask != 0 || d != 0) {
+								continue // not triggered: one low mark is enough
+							}
+							if r.Quick() && n == 3 && hs == "one" && mask%3 != 0 {
+								continue
+							}
+							out = append(out, Case{Mode: "state", Compress: compress, Entries: es, Strays: strays, HighSpec: hs, LowSpec: fmt.Sprintf("sum:%d+%d", mask, d)})
+						}
+					}
+				}
+			}
+		}
+		return out
 	}
 	var wg sync.WaitGroup
 	for _, w := range workers {
@@ -607,55 +727,33 @@ func main() {
 					}
 					continue
 				}
-				class, detail, after := w.runCase(j.c)
-				record(j, class, detail, after)
-			}
-		}()
-	}
-	idx := 0
-	exhaustive := true
-produce:
-	for _, compress := range []bool{false, true} {
-		for li, es := range lists {
-			if r.OutOfTime() {
-				exhaustive = false
-				break produce
-			}
-			n := len(es)
-			anyUnmarked := false
-			for _, e := range es {
-				anyUnmarked = anyUnmarked || e.Mark == ""
-			}
-			// water marks: high in {1, total-1, total, total+1}; low = every subset sum and subset sum + 1
-			highs := []string{"total+0", "total+1", "one", "total-1"}
-			if r.Quick() {
-				highs = highs[:3]
-			}
-			for _, strays := range []bool{false, true} {
-				if strays && li%5 != 0 {
-					continue // stray files with every 5th content
+				// a batch: every case of one entry list
+				anyUnmarked := false
+				for _, e := range j.c.Entries {
+					anyUnmarked = anyUnmarked || e.Mark == ""
 				}
-				for _, hs := range highs {
-					for mask := 0; mask < 1<<n; mask++ {
-						for _, d := range []int{0, 1} {
-							if hs == "total+1" && (mask != 0 || d != 0) {
-								continue // not triggered: one low mark is enough
-							}
-							if r.Quick() && n == 3 && hs == "one" && mask%3 != 0 {
-								continue
-							}
-							idx++
-							jobs <- job{Case{Mode: "state", Compress: compress, Entries: es, Strays: strays, HighSpec: hs, LowSpec: fmt.Sprintf("sum:%d+%d", mask, d)}, idx}
-							if anyUnmarked && n > 0 {
-								atomic.AddInt64(&nontrivial, 1)
-							}
-						}
+				for ci, c := range casesOf(j.c.K, j.c.Entries) {
+					class, detail, after := w.runCase(c)
+					record(job{c, j.idx + ci}, class, detail, after)
+					atomic.AddInt64(&stateCases, 1)
+					if anyUnmarked {
+						atomic.AddInt64(&nontrivial, 1)
 					}
 				}
 			}
-		}
+		}()
 	}
-	stateJobs := idx
+	exhaustive := true
+	idx := 0
+	for li, es := range lists {
+		if r.OutOfTime() {
+			exhaustive = false
+			break
+		}
+		idx = li * 10000
+		jobs <- job{Case{Mode: "batch", Entries: es, K: li}, idx}
+	}
+	idx = len(lists) * 10000
 	// interleavings: old unmarked entries + X
 	for _, compress := range []bool{false, true} {
 		for nOld := 1; nOld <= 2; nOld++ {
@@ -698,7 +796,7 @@ produce:
 		Transitions:        int(transitions),
 		TracesValidated:    int(concRuns),
 		Exhaustive:         exhaustive,
-		Extra: map[string]any{"state_cases": stateJobs, "interleavings": concRuns, "entry_lists": len(lists),
+		Extra: map[string]any{"state_cases": stateCases, "interleavings": concRuns, "entry_lists": len(lists),
 			"space": fmt.Sprintf("<=%d entries x payload KiB %v x access time (minutes after base) %v x marks %q x high in {1,total-1,total,total+1} x low in {subset sum, subset sum+1}; compressed and not; stray files with every 5th content; interleavings: 1-2 old entries x {store-new, store-existing, retrieve-existing} x {CXC, XCX} x every pause point", maxN, kibs, atimes, marks)},
 	})
 }
